@@ -79,7 +79,10 @@ impl Executor for BashScriptExecutor {
         testcases: &[&TestCase],
         context: &ExecutionContext,
     ) -> Result<Vec<Output>> {
-        let testcase = compile_testcase(testcases, context)?;
+        // random part of the dividers of this execution; only lines that
+        // carry it are dividers, anything else is output of the tests
+        let salt = random_string(SUFFIX_RANDOM_SIZE);
+        let testcase = compile_testcase(testcases, context, &salt)?;
         let runner = SubprocessRunner(self.0.to_owned());
         let output = runner
             .run("script", &testcase, context)
@@ -112,6 +115,7 @@ impl Executor for BashScriptExecutor {
         let mut outputs = vec![];
         iterate_divided_output(
             "STDOUT",
+            &salt,
             (&output.stdout).into(),
             |_index: usize, out: &[u8], exit_code: i32| {
                 outputs.push(Output {
@@ -146,6 +150,7 @@ impl Executor for BashScriptExecutor {
         if testcase.config.output_stream != Some(OutputStreamControl::Combined) {
             iterate_divided_output(
                 "STDERR",
+                &salt,
                 (&output.stderr).into(),
                 |index: usize, out: &[u8], _exit_code: i32| {
                     if index >= outputs.len() {
@@ -171,7 +176,11 @@ impl Executor for BashScriptExecutor {
 /// Reduce a list of [`TestCase`] into a single one that has as it's shell
 /// expression a compiled bash script that executes all expressions and that
 /// uses a shared configuration
-fn compile_testcase(testcases: &[&TestCase], context: &ExecutionContext) -> Result<TestCase> {
+fn compile_testcase(
+    testcases: &[&TestCase],
+    context: &ExecutionContext,
+    salt: &str,
+) -> Result<TestCase> {
     let mut config = TestCaseConfig::empty();
 
     // iterate all test cases and make sure that they have a consistent configuration
@@ -215,7 +224,7 @@ fn compile_testcase(testcases: &[&TestCase], context: &ExecutionContext) -> Resu
     }
 
     // create a bash script that executes all testcases
-    let script = compile_script(testcases, &config)?;
+    let script = compile_script(testcases, &config, salt)?;
 
     // the environment variables are already exported in the compiled script
     config.environment.clear();
@@ -242,11 +251,10 @@ fn remove_dividers_from_output(output: &OutputStream) -> OutputStream {
 }
 
 /// Compiles all shell expressions of a list of [`TestCase`]s into a single bash script
-fn compile_script(testcases: &[&TestCase], config: &TestCaseConfig) -> Result<String> {
+fn compile_script(testcases: &[&TestCase], config: &TestCaseConfig, salt: &str) -> Result<String> {
     use std::borrow::Cow;
 
     let mut expressions = vec![];
-    let salt = random_string(SUFFIX_RANDOM_SIZE);
     for (index, testcase) in testcases.iter().enumerate() {
         if testcase.config.timeout.is_some() {
             return Err(ExecutionError::failed(
@@ -281,7 +289,7 @@ fn compile_script(testcases: &[&TestCase], config: &TestCaseConfig) -> Result<St
         expressions.push(testcase.shell_expression.to_string());
 
         // add footer that divides from next execution and captures exit code
-        let footer = generate_divider(&salt, index);
+        let footer = generate_divider(salt, index);
         expressions.push("".to_string());
         expressions.push(format!(r#"echo "{}""#, &footer));
         if config.output_stream != Some(OutputStreamControl::Combined) {
@@ -292,15 +300,24 @@ fn compile_script(testcases: &[&TestCase], config: &TestCaseConfig) -> Result<St
     Ok(expressions.join("\n"))
 }
 
-fn iterate_divided_output<C>(name: &str, output: &[u8], mut callback: C) -> Result<()>
+fn iterate_divided_output<C>(name: &str, salt: &str, output: &[u8], mut callback: C) -> Result<()>
 where
     C: FnMut(usize, &[u8], i32) -> Result<()>,
 {
     let mut buffer = vec![];
     let mut expected_index = 0;
+    let salted_prefix = format!("{DIVIDER_PREFIX}{salt}::").into_bytes();
     for line in output.split_at_newline() {
-        let divider =
-            parse_divider_bytes(line).map_err(|err| ExecutionError::failed(expected_index, err))?;
+        // a line that resembles a divider, but does not carry the salt of this
+        // execution, was printed by a test and is output like any other
+        let divider = if line
+            .windows(salted_prefix.len())
+            .any(|window| window == &salted_prefix[..])
+        {
+            parse_divider_bytes(line).map_err(|err| ExecutionError::failed(expected_index, err))?
+        } else {
+            DividerSearch::NotFound
+        };
         match divider {
             DividerSearch::NotFound => buffer.push(line.to_vec()),
             DividerSearch::Found {
